@@ -120,6 +120,16 @@ Theorem c01_py_store_leaf : forall buf off v, length buf mod 8 = 0 -> 1 <= lengt
 Proof. exact py_store_inv. Qed.
 Print Assumptions c01_py_store_leaf.
 
+(* append-only composition of that leaf law: handing the bit strings c1, c2, ... in order to add_(un)aligned_unsigned of a
+   zero-filled Serializer leaves their concatenation in the buffer (the shape of the Python templates without nested delimited
+   objects, with c_i the specification's field encodings) *)
+Theorem c01_py_append_only : forall chunks buf off, length buf mod 8 = 0 -> Forall (fun c => 1 <= length c) chunks ->
+  off + length (concat chunks) <= length buf -> zero_from buf off ->
+  py_emit chunks buf off =
+    Some (firstn off buf ++ concat chunks ++ skipn (off + length (concat chunks)) buf, off + length (concat chunks)).
+Proof. exact py_emit_appends. Qed.
+Print Assumptions c01_py_append_only.
+
 Example c01_instances_run :
   set_bits (c_prims false) (repeat true 24) 3 (bits_of_N 13 4096) =
     Some (firstn 3 (repeat true 24) ++ bits_of_N 13 4096 ++ skipn 16 (repeat true 24)) /\
@@ -196,3 +206,42 @@ Example c01_example_enc :
   enc_body ex_union (VUnion 1 (VStruct [VInt 9; VInt (-5000); VFlt 1065357312%N])) =
   Ok (bits_of_N 8 1 ++ bits_of_N 32 4 ++ bits_of_N 3 7 ++ bits_of_N 13 4096 ++ bits_of_N 16 15361).
 Proof. vm_compute. reflexivity. Qed.
+
+(* ---- source tie of the template bodies (Codec/TplTie.v; Generated/Gen_CodecTpl.v is rescanned from the .j2 files on every run) ---- *)
+From Verif Require TplTieBase TplTieData Gen_CodecTpl TplTie.
+
+(* the macro structure of the C / C++ / Python codec templates (dispatch order, static decisions, classified emitted statements:
+   primitive calls with width/offset expressions, cursor updates, bounds checks and error codes, padding) is the reviewed one *)
+Theorem c01_c_templates_match_walker :
+  Gen_CodecTpl.gen_c_ser_dispatch = TplTieData.walker_c_ser_dispatch /\ Gen_CodecTpl.gen_c_ser_macros = TplTieData.walker_c_ser_macros /\
+  Gen_CodecTpl.gen_c_des_dispatch = TplTieData.walker_c_des_dispatch /\ Gen_CodecTpl.gen_c_des_macros = TplTieData.walker_c_des_macros.
+Proof. exact TplTie.c_templates_match_walker. Qed.
+Print Assumptions c01_c_templates_match_walker.
+
+Theorem c01_cpp_templates_match_walker :
+  Gen_CodecTpl.gen_cpp_ser_dispatch = TplTieData.walker_cpp_ser_dispatch /\ Gen_CodecTpl.gen_cpp_ser_macros = TplTieData.walker_cpp_ser_macros /\
+  Gen_CodecTpl.gen_cpp_des_dispatch = TplTieData.walker_cpp_des_dispatch /\ Gen_CodecTpl.gen_cpp_des_macros = TplTieData.walker_cpp_des_macros.
+Proof. exact TplTie.cpp_templates_match_walker. Qed.
+Print Assumptions c01_cpp_templates_match_walker.
+
+Theorem c01_py_templates_match_walker :
+  Gen_CodecTpl.gen_py_ser_dispatch = TplTieData.walker_py_ser_dispatch /\ Gen_CodecTpl.gen_py_ser_macros = TplTieData.walker_py_ser_macros /\
+  Gen_CodecTpl.gen_py_des_dispatch = TplTieData.walker_py_des_dispatch /\ Gen_CodecTpl.gen_py_des_macros = TplTieData.walker_py_des_macros.
+Proof. exact TplTie.py_templates_match_walker. Qed.
+Print Assumptions c01_py_templates_match_walker.
+
+(* every type constructor is dispatched by the regenerated C table to the macro the corresponding walker arm models *)
+Theorem c01_c_dispatch_routes_like_walker : forall t,
+  TplTie.first_match (TplTie.type_test t) Gen_CodecTpl.gen_c_ser_dispatch = Some [TplTie.walker_arm true t] /\
+  TplTie.first_match (TplTie.type_test t) Gen_CodecTpl.gen_c_des_dispatch = Some [TplTie.walker_arm false t].
+Proof. exact TplTie.c_dispatch_routes_like_walker. Qed.
+Print Assumptions c01_c_dispatch_routes_like_walker.
+
+(* the regenerated `_serialize_integer` tree, instantiated under every combination of the static facts it tests, picks the
+   whole-byte store iff aligned /\ width <= 8 and emits saturation code iff saturated /\ non-standard width - the walker's split *)
+Theorem c01_c_int_ser_split_matches_walker : forall f,
+  TplTie.abs_ser_path (TplTie.c_int_ser f) = Some (TplTie.walker_ser_path (TplTie.f_al f) (TplTie.f_le8 f)) /\
+  TplTie.emits TplTieBase.KGuard TplTie.pat0 (TplTie.c_int_ser f) = (TplTie.f_sat f && negb (TplTie.f_std f))%bool /\
+  TplTie.emits TplTieBase.KCursor TplTie.pat1 (TplTie.c_int_ser f) = true.
+Proof. exact TplTie.c_int_ser_split_matches_walker. Qed.
+Print Assumptions c01_c_int_ser_split_matches_walker.
